@@ -257,7 +257,11 @@ def proved_tier(rep: Report, pid: str, seed: int, expected_min_obligations: int 
         for d in r.get("dropped", []):
             rep.assume(f"{key}: extraction drops `{d}`")
         reachable = 0
+        loops: Dict[str, List[str]] = {}
         for o in r["obligations"]:
+            if o["kind"] == "cover" and o["name"].startswith("cover-loop"):
+                loops.setdefault(o["name"], []).append(o["verdict"])
+                continue
             if o["kind"] == "cover":
                 if o["verdict"] in ("reachable", "cover-unknown"):
                     reachable += 1
@@ -283,6 +287,9 @@ def proved_tier(rep: Report, pid: str, seed: int, expected_min_obligations: int 
                 handle_refuted(rep, reg, c, key, o, r)
         if reachable == 0 and r["obligations"]:
             rep.checker_error(f"{key}: no reachable path (vacuous)")
+        for lname, verdicts in loops.items():
+            if all(v == "dead" for v in verdicts):
+                rep.checker_error(f"{key}: every path through the loop body {lname} is infeasible -- vacuous invariant or havoc error")
         # cross-check of the encoder against CPython + contract on the same inputs
         if c is not None and c.native and r.get("crosscheck"):
             crosscheck(rep, reg, c, r["crosscheck"])
